@@ -435,6 +435,7 @@ theorem step_BInv (s : State) (op : Op) (hi : DocInv s) (h : BInv s) : BInv (ste
     · refine h.of_same_tables rfl ?_
       simp [keys, List.map_map, Function.comp_def]
     · exact h
+  | foreign kind e => simp only [step]; split <;> exact h
 
 /-- all three invariants hold in every reachable state -/
 theorem full_inv_reachable (s : State) (ops : List Op) (h : DocInv s) (hb : BInv s) (hok : HistOk s ops) :
